@@ -326,6 +326,16 @@ class Interp:
         return VTuple(self.eval_elts(frame, e.elts))
 
     def ex_List(self, frame, e):
+        if e.elts and all(isinstance(x, ast.Starred) for x in e.elts):
+            from . import setsum
+
+            parts = [self.eval(frame, x.value) for x in e.elts]
+            if all(setsum.iterable_mem(self, p) is not None for p in parts):
+                return setsum.union_enum(self, parts)      # [*a, *b] over sets: an enumeration of the union
+            out = []
+            for p in parts:
+                out.extend(self.iterate_concrete(p))
+            return VList(out)
         return VList(self.eval_elts(frame, e.elts))
 
     def ex_Set(self, frame, e):
